@@ -374,105 +374,35 @@ BaseSettings::default_impl()
     ensures str_bytes("GET"@) != connect_bytes(), str_bytes("POST"@) != connect_bytes(), str_bytes("PUT"@) != connect_bytes(), str_bytes("DELETE"@) != connect_bytes(),
         str_bytes("HEAD"@) != connect_bytes(), str_bytes("OPTIONS"@) != connect_bytes(), str_bytes("PATCH"@) != connect_bytes(), str_bytes("TRACE"@) != connect_bytes() { }
 impl Session {
-//@@ fn src/request/session.rs impl~Session get props=C16
+//@@ fn src/request/session.rs impl~Session get props=C16,C07
 //@@ rw R1
 Method::GET
 //@@ =>
 vp_method_get()
-//@@ splice before
-RequestBuilder::with_settings(
-//@@ with
-        proof { lemma_shortcut_methods_are_not_connect(); }
-//@@ contract
-        requires url_parse_spec(as_ref_str_spec(base_url)) is Some,   // documented: panics on an invalid URL
-        ensures res.sp_settings() == self@ && res.sp_headers() == self@.headers && method_bytes(&res.sp_method()) == str_bytes("GET"@) // id: request_is_created_with_the_sessions_current_settings [C16]
-            && url_parse_spec(as_ref_str_spec(base_url)) == Some(res.sp_url()),
-//@@ end
-//@@ fn src/request/session.rs impl~Session post props=C16
 //@@ rw R1
 Method::POST
 //@@ =>
 vp_method_post()
-//@@ splice before
-RequestBuilder::with_settings(
-//@@ with
-        proof { lemma_shortcut_methods_are_not_connect(); }
-//@@ contract
-        requires url_parse_spec(as_ref_str_spec(base_url)) is Some,   // documented: panics on an invalid URL
-        ensures res.sp_settings() == self@ && res.sp_headers() == self@.headers && method_bytes(&res.sp_method()) == str_bytes("POST"@) // id: request_is_created_with_the_sessions_current_settings [C16]
-            && url_parse_spec(as_ref_str_spec(base_url)) == Some(res.sp_url()),
-//@@ end
-//@@ fn src/request/session.rs impl~Session put props=C16
 //@@ rw R1
 Method::PUT
 //@@ =>
 vp_method_put()
-//@@ splice before
-RequestBuilder::with_settings(
-//@@ with
-        proof { lemma_shortcut_methods_are_not_connect(); }
-//@@ contract
-        requires url_parse_spec(as_ref_str_spec(base_url)) is Some,   // documented: panics on an invalid URL
-        ensures res.sp_settings() == self@ && res.sp_headers() == self@.headers && method_bytes(&res.sp_method()) == str_bytes("PUT"@) // id: request_is_created_with_the_sessions_current_settings [C16]
-            && url_parse_spec(as_ref_str_spec(base_url)) == Some(res.sp_url()),
-//@@ end
-//@@ fn src/request/session.rs impl~Session delete props=C16
 //@@ rw R1
 Method::DELETE
 //@@ =>
 vp_method_delete()
-//@@ splice before
-RequestBuilder::with_settings(
-//@@ with
-        proof { lemma_shortcut_methods_are_not_connect(); }
-//@@ contract
-        requires url_parse_spec(as_ref_str_spec(base_url)) is Some,   // documented: panics on an invalid URL
-        ensures res.sp_settings() == self@ && res.sp_headers() == self@.headers && method_bytes(&res.sp_method()) == str_bytes("DELETE"@) // id: request_is_created_with_the_sessions_current_settings [C16]
-            && url_parse_spec(as_ref_str_spec(base_url)) == Some(res.sp_url()),
-//@@ end
-//@@ fn src/request/session.rs impl~Session head props=C16
 //@@ rw R1
 Method::HEAD
 //@@ =>
 vp_method_head()
-//@@ splice before
-RequestBuilder::with_settings(
-//@@ with
-        proof { lemma_shortcut_methods_are_not_connect(); }
-//@@ contract
-        requires url_parse_spec(as_ref_str_spec(base_url)) is Some,   // documented: panics on an invalid URL
-        ensures res.sp_settings() == self@ && res.sp_headers() == self@.headers && method_bytes(&res.sp_method()) == str_bytes("HEAD"@) // id: request_is_created_with_the_sessions_current_settings [C16]
-            && url_parse_spec(as_ref_str_spec(base_url)) == Some(res.sp_url()),
-//@@ end
-//@@ fn src/request/session.rs impl~Session options props=C16
 //@@ rw R1
 Method::OPTIONS
 //@@ =>
 vp_method_options()
-//@@ splice before
-RequestBuilder::with_settings(
-//@@ with
-        proof { lemma_shortcut_methods_are_not_connect(); }
-//@@ contract
-        requires url_parse_spec(as_ref_str_spec(base_url)) is Some,   // documented: panics on an invalid URL
-        ensures res.sp_settings() == self@ && res.sp_headers() == self@.headers && method_bytes(&res.sp_method()) == str_bytes("OPTIONS"@) // id: request_is_created_with_the_sessions_current_settings [C16]
-            && url_parse_spec(as_ref_str_spec(base_url)) == Some(res.sp_url()),
-//@@ end
-//@@ fn src/request/session.rs impl~Session patch props=C16
 //@@ rw R1
 Method::PATCH
 //@@ =>
 vp_method_patch()
-//@@ splice before
-RequestBuilder::with_settings(
-//@@ with
-        proof { lemma_shortcut_methods_are_not_connect(); }
-//@@ contract
-        requires url_parse_spec(as_ref_str_spec(base_url)) is Some,   // documented: panics on an invalid URL
-        ensures res.sp_settings() == self@ && res.sp_headers() == self@.headers && method_bytes(&res.sp_method()) == str_bytes("PATCH"@) // id: request_is_created_with_the_sessions_current_settings [C16]
-            && url_parse_spec(as_ref_str_spec(base_url)) == Some(res.sp_url()),
-//@@ end
-//@@ fn src/request/session.rs impl~Session trace props=C16
 //@@ rw R1
 Method::TRACE
 //@@ =>
@@ -483,7 +413,301 @@ RequestBuilder::with_settings(
         proof { lemma_shortcut_methods_are_not_connect(); }
 //@@ contract
         requires url_parse_spec(as_ref_str_spec(base_url)) is Some,   // documented: panics on an invalid URL
-        ensures res.sp_settings() == self@ && res.sp_headers() == self@.headers && method_bytes(&res.sp_method()) == str_bytes("TRACE"@) // id: request_is_created_with_the_sessions_current_settings [C16]
+        ensures res.sp_settings() == self@ && res.sp_headers() == self@.headers && method_bytes(&res.sp_method()) == str_bytes("GET"@) // id: request_is_created_with_the_sessions_current_settings [C16,C07]
+            && url_parse_spec(as_ref_str_spec(base_url)) == Some(res.sp_url()),
+//@@ end
+//@@ fn src/request/session.rs impl~Session post props=C16,C07
+//@@ rw R1
+Method::GET
+//@@ =>
+vp_method_get()
+//@@ rw R1
+Method::POST
+//@@ =>
+vp_method_post()
+//@@ rw R1
+Method::PUT
+//@@ =>
+vp_method_put()
+//@@ rw R1
+Method::DELETE
+//@@ =>
+vp_method_delete()
+//@@ rw R1
+Method::HEAD
+//@@ =>
+vp_method_head()
+//@@ rw R1
+Method::OPTIONS
+//@@ =>
+vp_method_options()
+//@@ rw R1
+Method::PATCH
+//@@ =>
+vp_method_patch()
+//@@ rw R1
+Method::TRACE
+//@@ =>
+vp_method_trace()
+//@@ splice before
+RequestBuilder::with_settings(
+//@@ with
+        proof { lemma_shortcut_methods_are_not_connect(); }
+//@@ contract
+        requires url_parse_spec(as_ref_str_spec(base_url)) is Some,   // documented: panics on an invalid URL
+        ensures res.sp_settings() == self@ && res.sp_headers() == self@.headers && method_bytes(&res.sp_method()) == str_bytes("POST"@) // id: request_is_created_with_the_sessions_current_settings [C16,C07]
+            && url_parse_spec(as_ref_str_spec(base_url)) == Some(res.sp_url()),
+//@@ end
+//@@ fn src/request/session.rs impl~Session put props=C16,C07
+//@@ rw R1
+Method::GET
+//@@ =>
+vp_method_get()
+//@@ rw R1
+Method::POST
+//@@ =>
+vp_method_post()
+//@@ rw R1
+Method::PUT
+//@@ =>
+vp_method_put()
+//@@ rw R1
+Method::DELETE
+//@@ =>
+vp_method_delete()
+//@@ rw R1
+Method::HEAD
+//@@ =>
+vp_method_head()
+//@@ rw R1
+Method::OPTIONS
+//@@ =>
+vp_method_options()
+//@@ rw R1
+Method::PATCH
+//@@ =>
+vp_method_patch()
+//@@ rw R1
+Method::TRACE
+//@@ =>
+vp_method_trace()
+//@@ splice before
+RequestBuilder::with_settings(
+//@@ with
+        proof { lemma_shortcut_methods_are_not_connect(); }
+//@@ contract
+        requires url_parse_spec(as_ref_str_spec(base_url)) is Some,   // documented: panics on an invalid URL
+        ensures res.sp_settings() == self@ && res.sp_headers() == self@.headers && method_bytes(&res.sp_method()) == str_bytes("PUT"@) // id: request_is_created_with_the_sessions_current_settings [C16,C07]
+            && url_parse_spec(as_ref_str_spec(base_url)) == Some(res.sp_url()),
+//@@ end
+//@@ fn src/request/session.rs impl~Session delete props=C16,C07
+//@@ rw R1
+Method::GET
+//@@ =>
+vp_method_get()
+//@@ rw R1
+Method::POST
+//@@ =>
+vp_method_post()
+//@@ rw R1
+Method::PUT
+//@@ =>
+vp_method_put()
+//@@ rw R1
+Method::DELETE
+//@@ =>
+vp_method_delete()
+//@@ rw R1
+Method::HEAD
+//@@ =>
+vp_method_head()
+//@@ rw R1
+Method::OPTIONS
+//@@ =>
+vp_method_options()
+//@@ rw R1
+Method::PATCH
+//@@ =>
+vp_method_patch()
+//@@ rw R1
+Method::TRACE
+//@@ =>
+vp_method_trace()
+//@@ splice before
+RequestBuilder::with_settings(
+//@@ with
+        proof { lemma_shortcut_methods_are_not_connect(); }
+//@@ contract
+        requires url_parse_spec(as_ref_str_spec(base_url)) is Some,   // documented: panics on an invalid URL
+        ensures res.sp_settings() == self@ && res.sp_headers() == self@.headers && method_bytes(&res.sp_method()) == str_bytes("DELETE"@) // id: request_is_created_with_the_sessions_current_settings [C16,C07]
+            && url_parse_spec(as_ref_str_spec(base_url)) == Some(res.sp_url()),
+//@@ end
+//@@ fn src/request/session.rs impl~Session head props=C16,C07
+//@@ rw R1
+Method::GET
+//@@ =>
+vp_method_get()
+//@@ rw R1
+Method::POST
+//@@ =>
+vp_method_post()
+//@@ rw R1
+Method::PUT
+//@@ =>
+vp_method_put()
+//@@ rw R1
+Method::DELETE
+//@@ =>
+vp_method_delete()
+//@@ rw R1
+Method::HEAD
+//@@ =>
+vp_method_head()
+//@@ rw R1
+Method::OPTIONS
+//@@ =>
+vp_method_options()
+//@@ rw R1
+Method::PATCH
+//@@ =>
+vp_method_patch()
+//@@ rw R1
+Method::TRACE
+//@@ =>
+vp_method_trace()
+//@@ splice before
+RequestBuilder::with_settings(
+//@@ with
+        proof { lemma_shortcut_methods_are_not_connect(); }
+//@@ contract
+        requires url_parse_spec(as_ref_str_spec(base_url)) is Some,   // documented: panics on an invalid URL
+        ensures res.sp_settings() == self@ && res.sp_headers() == self@.headers && method_bytes(&res.sp_method()) == str_bytes("HEAD"@) // id: request_is_created_with_the_sessions_current_settings [C16,C07]
+            && url_parse_spec(as_ref_str_spec(base_url)) == Some(res.sp_url()),
+//@@ end
+//@@ fn src/request/session.rs impl~Session options props=C16,C07
+//@@ rw R1
+Method::GET
+//@@ =>
+vp_method_get()
+//@@ rw R1
+Method::POST
+//@@ =>
+vp_method_post()
+//@@ rw R1
+Method::PUT
+//@@ =>
+vp_method_put()
+//@@ rw R1
+Method::DELETE
+//@@ =>
+vp_method_delete()
+//@@ rw R1
+Method::HEAD
+//@@ =>
+vp_method_head()
+//@@ rw R1
+Method::OPTIONS
+//@@ =>
+vp_method_options()
+//@@ rw R1
+Method::PATCH
+//@@ =>
+vp_method_patch()
+//@@ rw R1
+Method::TRACE
+//@@ =>
+vp_method_trace()
+//@@ splice before
+RequestBuilder::with_settings(
+//@@ with
+        proof { lemma_shortcut_methods_are_not_connect(); }
+//@@ contract
+        requires url_parse_spec(as_ref_str_spec(base_url)) is Some,   // documented: panics on an invalid URL
+        ensures res.sp_settings() == self@ && res.sp_headers() == self@.headers && method_bytes(&res.sp_method()) == str_bytes("OPTIONS"@) // id: request_is_created_with_the_sessions_current_settings [C16,C07]
+            && url_parse_spec(as_ref_str_spec(base_url)) == Some(res.sp_url()),
+//@@ end
+//@@ fn src/request/session.rs impl~Session patch props=C16,C07
+//@@ rw R1
+Method::GET
+//@@ =>
+vp_method_get()
+//@@ rw R1
+Method::POST
+//@@ =>
+vp_method_post()
+//@@ rw R1
+Method::PUT
+//@@ =>
+vp_method_put()
+//@@ rw R1
+Method::DELETE
+//@@ =>
+vp_method_delete()
+//@@ rw R1
+Method::HEAD
+//@@ =>
+vp_method_head()
+//@@ rw R1
+Method::OPTIONS
+//@@ =>
+vp_method_options()
+//@@ rw R1
+Method::PATCH
+//@@ =>
+vp_method_patch()
+//@@ rw R1
+Method::TRACE
+//@@ =>
+vp_method_trace()
+//@@ splice before
+RequestBuilder::with_settings(
+//@@ with
+        proof { lemma_shortcut_methods_are_not_connect(); }
+//@@ contract
+        requires url_parse_spec(as_ref_str_spec(base_url)) is Some,   // documented: panics on an invalid URL
+        ensures res.sp_settings() == self@ && res.sp_headers() == self@.headers && method_bytes(&res.sp_method()) == str_bytes("PATCH"@) // id: request_is_created_with_the_sessions_current_settings [C16,C07]
+            && url_parse_spec(as_ref_str_spec(base_url)) == Some(res.sp_url()),
+//@@ end
+//@@ fn src/request/session.rs impl~Session trace props=C16,C07
+//@@ rw R1
+Method::GET
+//@@ =>
+vp_method_get()
+//@@ rw R1
+Method::POST
+//@@ =>
+vp_method_post()
+//@@ rw R1
+Method::PUT
+//@@ =>
+vp_method_put()
+//@@ rw R1
+Method::DELETE
+//@@ =>
+vp_method_delete()
+//@@ rw R1
+Method::HEAD
+//@@ =>
+vp_method_head()
+//@@ rw R1
+Method::OPTIONS
+//@@ =>
+vp_method_options()
+//@@ rw R1
+Method::PATCH
+//@@ =>
+vp_method_patch()
+//@@ rw R1
+Method::TRACE
+//@@ =>
+vp_method_trace()
+//@@ splice before
+RequestBuilder::with_settings(
+//@@ with
+        proof { lemma_shortcut_methods_are_not_connect(); }
+//@@ contract
+        requires url_parse_spec(as_ref_str_spec(base_url)) is Some,   // documented: panics on an invalid URL
+        ensures res.sp_settings() == self@ && res.sp_headers() == self@.headers && method_bytes(&res.sp_method()) == str_bytes("TRACE"@) // id: request_is_created_with_the_sessions_current_settings [C16,C07]
             && url_parse_spec(as_ref_str_spec(base_url)) == Some(res.sp_url()),
 //@@ end
 }
